@@ -90,8 +90,8 @@ def _cap_cbmc(sid, cap_bytes, stop, log=None):
             except OSError:
                 pass
             victims = [(r, p) for r, p in procs if r > cap_bytes]
-            if not victims and avail is not None and avail < 3 * 1024 ** 3 and procs:
-                victims = [max(procs)]
+            if not victims and avail is not None and avail < 3 * 1024 ** 3 and procs and max(procs)[0] > 4 * 1024 ** 3:
+                victims = [max(procs)]  # (a small process is never the one to give way)
             for rss, pid in victims:
                 try:
                     cmd = open("/proc/%d/cmdline" % pid).read().split("\0")
